@@ -96,7 +96,7 @@ static void case_history(const Args &a, long idx, bool wantDesc, CaseResult &res
             bool freshUsesNew = false;   // signature of F28: with a bend penalty the fresh route bends at a corner of a shape that was only just placed
             if (pen > 0 && !orth) for (size_t i = 1; i + 1 < fresh.size(); i++) for (auto &pl : newlyPlaced) for (auto &v : pl) if (fresh.ps[i].x == (double)v.x && fresh.ps[i].y == (double)v.y) freshUsesNew = true;
             if (ci > cf + 1e-6 && freshUsesNew) res.violate("polyline:incremental-costlier-than-fresh(fresh-route-bends-at-newly-placed-shape)", wit(ci, cf));
-            else if (ci > cf + 1e-6) res.violate(std::string(orth ? "orthogonal" : "polyline") + (pen > 0 && !orth && countBends(inc) > countBends(fresh) && polylineLength(inc) <= polylineLength(fresh) + 1e-6 ? ":incremental-costlier-than-fresh(not-longer-only-more-bends)" : ":incremental-costlier-than-fresh") + (std::find(ex.begin(), ex.end(), 1) != ex.end() && !orth ? "[an-endpoint-lies-inside-a-shape]" : ""), wit(ci, cf));
+            else if (ci > cf + 1e-6) res.violate(std::string(orth ? "orthogonal" : "polyline") + (pen > 0 && !orth && countBends(inc) > countBends(fresh) && polylineLength(inc) <= polylineLength(fresh) + 1e-6 ? ":incremental-costlier-than-fresh(not-longer-only-more-bends)" : std::find(ex.begin(), ex.end(), 1) != ex.end() && !orth ? ":incremental-costlier-than-fresh[an-endpoint-lies-inside-a-shape]" : ":incremental-costlier-than-fresh"), wit(ci, cf));
             else if (ci < cf - 1e-6) res.count("fresh_router_suboptimal(not judged here; C04/C05 business)");
         }
     };
